@@ -8,6 +8,12 @@ def repo_fix_commits():
     return []
 
 CHECKS = {
+ "C10": ("fault_enumeration", "ptrace syscall stepping of the unmodified gxz binary: crash-point and errno-fault enumeration with a directory-state oracle",
+   "For each scenario a record pass lists every file-system syscall touching the scenario directory; the run is then repeated killing the process before and after each of them and failing each with every meaningful errno (once / persistently); after every run the directory and exit status are compared with invariants I1-I6 (data exists in one complete form, input never modified, failed runs leave input and target untouched, success means complete target, no temporary file, failures exit non-zero).",
+   "Crash points = instants between observed syscalls; power-loss durability is out of scope; completeness of observation is self-checked on the record pass; scenario list is a sample in the quick tier and the full consistent product in the thorough tier.", "4 C10"),
+ "C15": ("exploration", "model-based runtime monitoring of the gxz binary: generated invocations compared with an executable model, plus xz-utils interop",
+   "Generated argument vectors (short/bundled/long flags in any order, '--', multi-file runs with failing members, stdin/stdout) run in fresh directories; exit status, stdout and the resulting tree are compared with an executable model of the documented semantics (compressed results judged by decoding with the reference and liblzma); round trips for presets 0-9 x both formats check name, content and permission bits; gxz output is read by the xz command and xz-utils output (incl. multi-block, -T2) by gxz.",
+   "The model is lenient where the statement is silent (-z); xz-utils 5.8.2 CLI and liblzma are optional second opinions (skipped sub-oracles are reported).", "4 C15"),
  "C11": ("exploration", "structure-aware mutation fuzzing with panic, result-range and stall monitors (logical and thread-CPU-time)",
    "A deterministic mutator derives about a million hostile inputs (quick) from valid seeds of the three formats, including CRC32-resealed container edits and chunk-header rewrites, and feeds them to the xz, xz-SingleStream, LZMA and LZMA2 readers; monitors: recovered panics, 0<=n<=len(p), logical stalls, and a watchdog on per-thread CPU time. The evidence lists the outcome histogram showing how deep the inputs got.",
    "Sampled inputs under the stated dictionary bound; a fatal runtime error (not recoverable) would end the process and is reported by the driver as a violation with the goroutine dump.", "4 C11"),
